@@ -641,6 +641,16 @@ def replay(c, script_in, states=None, U=1, version=3, variant='arg',
             if task is None:
                 continue
             st = states[i] if states is not None else None
+            if st is not None and st['done'] and not task.done() and sparse:
+                # a repaired sparse copy may extend the destination with an
+                # explicit write of zeros into the trailing hole
+                data_end = max([0] + [(o + n) * U for o, n in
+                                      runs(set(c['data']), A)])
+                if all(r.kind == WRITE and r.off >= data_end and
+                       not any(r.data) for r in script.held):
+                    for r in list(script.held):
+                        script.answer(r, 'ok')
+                    loop.run_until_idle()
             if task.done():
                 if st is not None and not st['done']:
                     res['diverged'] = (f'step {i}: code finished before the '
